@@ -45,7 +45,7 @@ def _case(args):
                 try: w = w[:k] + shapelib.sample_sentence(rng, p).split(' ')
                 except RecursionError: pass
         texts.append(' '.join(w))
-    seqs, refs = [], []
+    seqs, refs, stexts = [], [], []
     for text in texts:
         try:
             toks = list(p.lex(text))
@@ -57,18 +57,43 @@ def _case(args):
         except UnexpectedToken as e:
             idx = len(toks) if e.token.type == '$END' else [i for i, t in enumerate(toks) if t.start_pos == e.token.start_pos][0]
             ref = ['err', idx]
-        seqs.append(toks); refs.append(ref)
+        seqs.append(toks); refs.append(ref); stexts.append(text)
     if not seqs:
         return {'nobuild': True}
+    # ---- reference stepper over lark's own table (states only): what feed_token must do to the state stack, errors included —
+    # reductions made before the error is noticed stay, the offending token is not consumed
+    from lark.parsers.lalr_analysis import Shift
+    pt = p.parser.parser._parse_table if hasattr(p.parser.parser, '_parse_table') else p.parser.parser.parser.parse_table
+    states, end_state = pt.states, pt.end_states['start']
+    def ref_feed(stack, ttype, is_end=False):
+        while True:
+            try:
+                action, arg = states[stack[-1]][ttype]
+            except KeyError:
+                return 'error'
+            if action is Shift:
+                stack.append(arg); return 'shift'
+            size = len(arg.expansion)
+            if size: del stack[-size:]
+            stack.append(states[stack[-1]][arg.origin.name][1])
+            if is_end and stack[-1] == end_state:
+                return 'accept'
+    def stack_of(obj):
+        return list(obj.parser_state.state_stack)
+    def check_stack(c, what):
+        if stack_of(c['obj']) != c['ref']:
+            failures.append({'kind': 'state_stack', 'cursor': c['id'], 'after': what, 'consumed': [str(t) for t in seqs[c['seq']][:c['k']]], 'state_stack': stack_of(c['obj']), 'reference_stepper': list(c['ref'])})
+            return False
+        return True
     same_prefix = lambda a, b, k: [(t.type, str(t)) for t in seqs[a][:k]] == [(t.type, str(t)) for t in seqs[b][:k]]
     # ---- the fork tree
     log, failures = [], []
     cursors = []      # dict(obj, seq, k, imm, dead)
-    ip = p.parse_interactive(texts[0])
-    cursors.append({'obj': ip, 'seq': 0, 'k': 0, 'imm': False, 'id': 0})
+    ip = p.parse_interactive(stexts[0])
+    cursors.append({'obj': ip, 'seq': 0, 'k': 0, 'imm': False, 'id': 0, 'ref': stack_of(ip), 'errored': False})
     nid = [1]
     def new(obj, c, imm):
-        d = {'obj': obj, 'seq': c['seq'], 'k': c['k'], 'imm': imm, 'id': nid[0]}; nid[0] += 1
+        d = {'obj': obj, 'seq': c['seq'], 'k': c['k'], 'imm': imm, 'id': nid[0], 'ref': list(c['ref']), 'errored': c['errored']}; nid[0] += 1
         cursors.append(d); return d
     terms = [t.name for t in p.terminals if t.name not in p.ignore_tokens] + ['$END']
     def check_accepts(c):
@@ -98,17 +123,30 @@ def _case(args):
                 try:
                     if c['imm']:
                         n = new(c['obj'].feed_token(tok), c, True); n['k'] += 1
+                        ref_feed(n['ref'], tok.type)
                         log.append(['feed_imm', c['id'], n['id']])
+                        if not (check_stack(n, 'immutable feed_token') and check_stack(c, 'immutable feed_token (the original)')): break
                     else:
                         c['obj'].feed_token(tok); c['k'] += 1
+                        ref_feed(c['ref'], tok.type)
                         log.append(['feed', c['id']])
+                        if not check_stack(c, 'feed_token'): break
                 except UnexpectedToken:
                     exp = refs[c['seq']]
-                    if exp != ['err', c['k']]:
+                    if exp != ['err', c['k']] and not c['errored']:
                         failures.append({'kind': 'feed_error', 'cursor': c['id'], 'at_token': c['k'], 'reference': exp})
-                    if not c['imm']:
-                        c['dead'] = True
                     log.append(['feed_error', c['id']])
+                    if c['imm']:
+                        if not check_stack(c, 'a failed immutable feed_token (the original)'): break
+                    else:
+                        # the error state: reductions made before the error was noticed stay, the token is not consumed; the cursor goes on with the
+                        # rest of its sequence (the offending token dropped), as an on_error handler would
+                        if ref_feed(c['ref'], tok.type) != 'error':
+                            failures.append({'kind': 'feed_error_unexpected', 'cursor': c['id'], 'at_token': c['k'], 'note': 'the table has an action for this token'}); break
+                        if not check_stack(c, 'a failed feed_token (error state)'): break
+                        toks2 = toks[:c['k']] + toks[c['k'] + 1:]
+                        seqs.append(toks2); refs.append(None); stexts.append(' '.join(str(t) for t in toks2))
+                        c['seq'] = len(seqs) - 1; c['errored'] = True
             elif r < 0.62:
                 n = new(c['obj'].copy(), c, c['imm']); log.append(['copy', c['id'], n['id']])
             elif r < 0.74:
@@ -117,7 +155,7 @@ def _case(args):
                 else:
                     n = new(c['obj'].as_immutable(), c, True); log.append(['as_immutable', c['id'], n['id']])
             elif r < 0.86:    # switch to another sequence with the same consumed prefix
-                alts = [j for j in range(len(seqs)) if j != c['seq'] and len(seqs[j]) >= c['k'] and same_prefix(c['seq'], j, c['k'])]
+                alts = [j for j in range(len(seqs)) if j != c['seq'] and len(seqs[j]) >= c['k'] and same_prefix(c['seq'], j, c['k']) and (refs[j] is not None or c['errored'])]
                 if alts:
                     if c['imm']:
                         c['seq'] = rng.choice(alts)
@@ -133,6 +171,14 @@ def _case(args):
             obj = c['obj'].as_mutable() if c['imm'] else c['obj']
             toks = seqs[c['seq']]
             k = c['k']
+            # the stepper's verdict from the cursor's own state
+            rs, want = list(c['ref']), None
+            for j in range(k, len(toks)):
+                if ref_feed(rs, toks[j].type) == 'error':
+                    want = ['err', j]; break
+            if want is None:
+                want = ['ok'] if ref_feed(rs, '$END', True) == 'accept' else ['err', len(toks)]
+            c['stepper'] = want
             try:
                 while k < len(toks):
                     obj.feed_token(toks[k]); k += 1
@@ -156,11 +202,50 @@ def _case(args):
         if canon(obj) != before:
             failures.append({'kind': 'returned_result_modified', 'cursor': cid, 'when_returned': before, 'now': canon(obj)})
     for cid, (c, got) in results.items():
-        if got != refs[c['seq']]:
-            failures.append({'kind': 'result', 'cursor': cid, 'sequence': texts[c['seq']] if c['seq'] < len(texts) else None, 'got': got, 'parse': refs[c['seq']]})
+        if got[:1] + (got[1:] if got[0] == 'err' else []) != c['stepper']:
+            failures.append({'kind': 'outcome_vs_table', 'cursor': cid, 'sequence': stexts[c['seq']], 'got': got[:1] + (got[1:] if got[0] == 'err' else []), 'stepping_the_table_from_its_state': c['stepper'], 'continued_from_an_error_state': c['errored']})
+        elif not c['errored'] and refs[c['seq']] is not None and got != refs[c['seq']]:
+            failures.append({'kind': 'result', 'cursor': cid, 'sequence': stexts[c['seq']], 'got': got, 'parse': refs[c['seq']]})
+    # ---- lexer-driven forks: parse_interactive(text) pulls its tokens from its own lexer thread; a snapshot/copy taken half way must go on from its own
+    # position whatever the original does afterwards (iter_parse, exhaust_lexer), and each must end with parse(text)
+    for ti, text in enumerate(stexts[:3]):
+        if refs[ti] is None:
+            continue
+        toks = seqs[ti]
+        def run_to_end(obj, imm):
+            try:
+                if imm:
+                    obj = obj.exhaust_lexer()
+                    return ['ok', canon(obj.feed_eof().result)]
+                obj.exhaust_lexer()
+                return ['ok', canon(obj.feed_eof())]
+            except UnexpectedToken as e:
+                return ['err', len(toks) if e.token.type == '$END' else [i for i, t in enumerate(toks) if t.start_pos == e.token.start_pos][0]]
+        try:
+            with guarded(6):
+                ip = p.parse_interactive(text)
+                j = rng.randint(0, max(0, len(toks) - 1))
+                gen_ = ip.lexer_thread.lex(ip.parser_state)     # (iter_parse() yields a token before feeding it: no consistent point to fork at)
+                for _ in range(j):
+                    ip.feed_token(next(gen_))
+                snap, cp = ip.as_immutable(), ip.copy()
+                order = [('original', ip, False), ('as_immutable() snapshot', snap, True), ('copy()', cp, False)]
+                rng.shuffle(order)
+                outs_ = [(name, run_to_end(o, imm)) for name, o, imm in order]
+        except (UnexpectedToken, StopIteration):
+            continue
+        log.append(['lexer_driven', ti, j, [n for n, _ in outs_]])
+        want = refs[ti]
+        def strip_end(r):
+            # feed_eof() without a last token: $END carries no position, results are compared without the root's end coordinates being affected (they are not)
+            return r
+        for name, got in outs_:
+            if strip_end(got) != strip_end(want):
+                failures.append({'kind': 'lexer_driven', 'text': text, 'snapshot_after_tokens': j, 'finished_in_order': [n for n, _ in outs_], 'which': name, 'got': got, 'parse': want})
+                break
     # results returned earlier must not have been modified by later forks: re-canonicalise is implicit (canon copies), so compare stored objects again
     return {'grammar': g, 'opts': opts, 'texts': texts, 'log': log, 'failures': failures[:3], 'forks': len(cursors), 'ops': len(log),
-            'accepted': sum(1 for r in refs if r[0] == 'ok'), 'seqs': len(seqs)}
+            'accepted': sum(1 for r in refs if r and r[0] == 'ok'), 'seqs': len(seqs), 'error_states_continued': sum(1 for c in cursors if c['errored'])}
 
 
 def replay_f10(f, res):
@@ -184,7 +269,7 @@ def run(ctx, res):
         if f['id'] == 'F10' and f['status'] == 'fixed':
             replay_f10(f, res)
     rng = random.Random(ctx['seed'] * 1000003 + 13)
-    N = tier_scale(ctx['tier'], 2000, 30000) * (3 if ctx['deepen'] else 1)
+    N = tier_scale(ctx['tier'], 4000, 40000) * (3 if ctx['deepen'] else 1)
     import lalrlib
     jobs = [((shapelib.gen_grammar(rng) if i % 3 else lalrlib.gen_lalr(rng) + '%ignore " "\n'), rng.randrange(1 << 30)) for i in range(N)]
     outs = pmap(_case, jobs, chunksize=4)
@@ -207,5 +292,9 @@ def run(ctx, res):
                     'immutable_changed': 'an immutable parser gives a different continuation after other forks ran',
                     'accepts': 'accepts() is not the set of terminals that can be fed',
                     'returned_result_modified': 'a result already returned by one fork was modified by another fork running later',
-                    'feed_error': 'feed_token raises at a token parse() accepts (or parse() rejects elsewhere)'}[f['kind']]
+                    'feed_error': 'feed_token raises at a token parse() accepts (or parse() rejects elsewhere)',
+                    'feed_error_unexpected': 'feed_token raises although the parse table has an action for the token',
+                    'state_stack': 'the state stack after an operation is not what stepping the parse table gives (error states included)',
+                    'outcome_vs_table': 'a fork does not end as stepping the parse table from its state does',
+                    'lexer_driven': 'a lexer-driven fork (parse_interactive(text) + as_immutable()/copy() + exhaust_lexer) does not end with the result of parse(text)'}[f['kind']]
             res.violation(what, {'grammar': rec['grammar'], 'opts': rec['opts'], 'texts': rec['texts'], 'operations': rec['log'], 'detail': f})
